@@ -196,6 +196,48 @@ def held_secrets(key, only_protected=True):
     return out
 
 
+def graph_secrets(key, name):
+    """walk everything reachable from the key object (attributes, containers, closures are not followed) and report secret integers of the
+    original key found anywhere - in whatever attribute, tuple or cache - and backend private-key objects that are still alive"""
+    secrets = {}
+    for i, d in enumerate(keyblobs()[name]['ints']):
+        for f, v in d.items():
+            if v > 1 << 64:
+                secrets[v] = '%d.%s' % (i, f)
+                secrets[v.to_bytes((v.bit_length() + 7) // 8, 'big')] = '%d.%s (octets)' % (i, f)
+    found, seen, todo = [], set(), [(key, 'key')]
+    while todo and len(seen) < 200000:
+        o, path = todo.pop()
+        if id(o) in seen:
+            continue
+        seen.add(id(o))
+        if isinstance(o, (int, bytes, bytearray)):
+            k = int(o) if isinstance(o, int) else bytes(o)
+            if k in secrets:
+                found.append('%s holds %s' % (path, secrets[k]))
+            continue
+        if isinstance(o, (str, float, type(None), type)):
+            continue
+        tn = type(o).__name__
+        if 'PrivateKey' in tn or 'PrivateNumbers' in tn:
+            found.append('%s is a live %s' % (path, tn))
+            continue
+        if isinstance(o, dict):
+            todo += [(v, '%s[%r]' % (path, k)) for k, v in o.items()]
+        elif isinstance(o, (list, tuple, set, frozenset, collections.deque)):
+            todo += [(v, '%s[%d]' % (path, j)) for j, v in enumerate(o)]
+        else:
+            if type(o).__module__.split('.')[0] not in ('pgpy', 'collections', 'weakref'):
+                continue
+            d = getattr(o, '__dict__', None)
+            if isinstance(d, dict):
+                todo += [(v, '%s.%s' % (path, k)) for k, v in d.items() if k not in ('_parent', '_sibling')]
+            for slot in getattr(type(o), '__slots__', ()) or ():
+                if hasattr(o, slot):
+                    todo.append((getattr(o, slot), '%s.%s' % (path, slot)))
+    return found[:4]
+
+
 def pw_octets(p):
     return p if isinstance(p, bytes) else p.encode('utf-8')
 
@@ -209,12 +251,16 @@ def wrong_of(p, i):
 # ---------------------------------------------------------------------------------------------------------------------
 # checks shared by the parts
 
-def expect_locked(key, fails, where, sign=True):
+def expect_locked(key, fails, where, sign=True, name=None):
     if key.is_unlocked or not key.is_protected:
         fails.append('%s: is_protected=%s is_unlocked=%s, expected protected and locked' % (where, key.is_protected, key.is_unlocked))
     h = held_secrets(key)
     if h:
         fails.append('%s: secret integers still in memory: %s' % (where, ','.join(h)))
+    if name is not None:
+        g = graph_secrets(key, name)
+        if g:
+            fails.append('%s: reachable from the key object: %s' % (where, '; '.join(g)))
     if sign:
         try:
             key.sign('refused?')
@@ -323,7 +369,7 @@ def run_matrix(case):
         except Exception as ex:
             fails.append('%s: unlock with the right passphrase raised %s: %s' % (label, type(ex).__name__, str(ex)[:60]))
         # (e) scope ended normally
-        expect_locked(k, fails, '%s, after the unlock scope' % label)
+        expect_locked(k, fails, '%s, after the unlock scope' % label, name=name)
         expect_no_decrypt(k, name, fails, '%s, after the unlock scope' % label)
         if bytes(k) != blob:
             fails.append('%s: export changed by an unlock cycle' % label)
@@ -336,7 +382,7 @@ def run_matrix(case):
             pass
         except Exception as ex:
             fails.append('exception inside the scope was replaced by %s' % type(ex).__name__)
-        expect_locked(key, fails, 'after an exception inside the unlock scope')
+        expect_locked(key, fails, 'after an exception inside the unlock scope', name=name)
         expect_no_decrypt(key, name, fails, 'after an exception inside the unlock scope')
     elif how == 'addsubkey':
         new = pgpy.PGPKey.new(PubKeyAlgorithm.EdDSA, EllipticCurveOID.Ed25519, created=T0)
